@@ -219,22 +219,12 @@ Theorem list_users_exact_partial : forall m conds store atoms ft fr limit,
 Proof. exact ListUsersSound.list_users_exact_partial. Qed.
 Print Assumptions list_users_exact_partial.
 
-(* doc: editor [user, user:*], allowed [user], viewer: editor and allowed;
-   editor@user:*, allowed@user:a, allowed@user:b  ->  {a, b}, both through the wildcard *)
-Definition m_pos : model :=
-  [ {| td_type := tU; td_rels := [] |};
-    {| td_type := tDoc; td_rels :=
-         [ {| rd_rel := 1; rd_rw := This; rd_restr := [rU; rW] |};
-           {| rd_rel := 2; rd_rw := This; rd_restr := [rU] |};
-           {| rd_rel := 3; rd_rw := Inter [Computed 1; Computed 2]; rd_restr := [] |} ] |} ].
-Definition s_pos : list tuple := [ mk_t doc1 1 W1; mk_t doc1 2 ua; mk_t doc1 2 ub ].
-Definition a_pos : list atom := [ (doc1, 1); (doc1, 2); (doc1, 3) ].
 Example list_users_exact_partial_ex :
   positive_model m_pos = true /\ no_empty_inter_model m_pos = true /\
   universe_ok m_pos [] s_pos (SWild tU) a_pos = true /\
   lf_results (list_users m_pos [] s_pos tU 0 25%nat false doc1 3) = [[ua; ub]] /\
   holds3 m_pos [] s_pos ua a_pos doc1 3 = T /\ holds3 m_pos [] s_pos uc a_pos doc1 3 = F.
-Proof. vm_compute. repeat split; reflexivity. Qed.
+Proof. exact ListUsersSound.list_users_exact_partial_ex. Qed.
 
 Theorem list_users_sound_refuted :
   exists m conds store atoms ft fr limit o r res u,
